@@ -10,6 +10,12 @@ CLAIMS = {
                 'contains/refine comparator duality at every call site. Exactness of the antichain algorithms themselves is not decided.',
         'note': 'trusted: clang 14 AST/CFG, exporter, the registered flags->entity table; rules are necessary conditions, not a proof of language inclusion',
     },
+    'C03': {
+        'text': 'Decides structural necessary conditions of language-preserving trimming: no cardinality comparison guards returning/sharing the unchanged input (SIZEEQ), '
+                'every first-visit insert enqueues the element and nothing but the enqueue depends on novelty, so no rule of an already known state is dropped (WORKLIST), '
+                'and results that share rule stores with the input never write them (COW). That the two passes compute exactly the useful states is not decided.',
+        'note': 'trusted: clang 14 AST, exporter; frozen exception: GetCandidateTree keeps one rule per new state by design',
+    },
     'C07': {
         'text': 'Decides, for both BDD encodings, the dispatch clauses (3 + 4 cases, delegation of the bottom-up downward variant with an equivalent InclParam on '
                 'sanitised operands and a simulation computed on their union, default throws => unimplemented selections raise an exception) and comparator duality of '
